@@ -16,6 +16,9 @@ RETRY_FACTOR = int(os.environ.get("PYVC_RETRY_FACTOR", "4"))
 _theories = []   # callables: list[z3 Bool] -> list[z3 Bool] (lemma instances)
 
 
+PLUS_INF = z3.Real("PLUS_INF")
+
+
 def register_theory(fn):
     if fn not in _theories:
         _theories.append(fn)
